@@ -21,6 +21,7 @@ type Obligation struct {
 	Goal   string
 	Expect string // "unsat" (normal) or "sat" (vacuity guards: must NOT be unsat)
 	Text   string // human readable goal (source text)
+	Skip   [][2]int // ranges of fact indices that cannot matter (bodies of completed loops without escaping paths)
 
 	// filled by the solver stage
 	Status  string // discharged | failed | error
@@ -46,6 +47,7 @@ type FuncCtx struct {
 	Obls    []*Obligation
 	inputs  []InputLeaf // symbolic inputs for replay
 	labelN  map[string]int
+	dead    [][2]int // fact index ranges scoped to finished loop bodies
 	Aborted string // non-empty: out-of-subset reason
 	sorts   map[string]string
 }
@@ -122,7 +124,8 @@ func (c *FuncCtx) oblige(class, label string, props []string, pos token.Position
 		label = fmt.Sprintf("%s~%d", label, k)
 	}
 	o := &Obligation{Func: c.Name, Class: class, Label: label, Props: props, Pos: pos,
-		NDecl: len(c.decls), NFact: len(c.facts), PC: pc, Goal: goal, Expect: "unsat", Text: text, fn: c}
+		NDecl: len(c.decls), NFact: len(c.facts), PC: pc, Goal: goal, Expect: "unsat", Text: text, fn: c,
+		Skip: append([][2]int(nil), c.dead...)}
 	c.Obls = append(c.Obls, o)
 	return o
 }
@@ -144,7 +147,14 @@ func (o *Obligation) Query(forCVC5 bool, wantModel bool) string {
 		sb.WriteString(d)
 		sb.WriteByte('\n')
 	}
-	for _, f := range c.facts[:o.NFact] {
+	si := 0
+	for i, f := range c.facts[:o.NFact] {
+		for si < len(o.Skip) && i >= o.Skip[si][1] {
+			si++
+		}
+		if si < len(o.Skip) && i >= o.Skip[si][0] && i < o.Skip[si][1] {
+			continue
+		}
 		sb.WriteString(f)
 		sb.WriteByte('\n')
 	}
